@@ -101,6 +101,19 @@ ShiftLemmas(p) == \A k \in {R(3), R(-7)} :
    /\ \A m \in FcstShiftInvariant : Det(m, ShiftF(p, k), "mean", Zero) = Det(m, p, "mean", Zero)
    /\ \A m \in CommonShiftInvariant : Det(m, ShiftBoth(p, k), "mean", Zero) = Det(m, p, "mean", Zero)
 
+\* ---- scale lemmas: scores of ORDER and of CORRELATION do not depend on the unit the two series are expressed in (metres or
+\* millimetres): multiplying observations and forecasts by the same positive constant leaves them unchanged (used with a factor of
+\* 10^-5 in the replay: "is the variance zero" decided with an absolute tolerance is told apart from the definition)
+ScaleInvariant == {"corr", "rankcorr", "kendallcorr"}
+ScaleBoth(p, k) == [i \in DOMAIN p |-> <<Mul(p[i][1], k), Mul(p[i][2], k)>>]
+ScaleLemmas(p) == \A k \in {R(2), <<1, 2>>} :
+   LET q == ScaleBoth(p, k) IN
+   /\ \A m \in {"rankcorr", "kendallcorr"} : Det(m, q, "mean", Zero) = Det(m, p, "mean", Zero)
+   \* Pearson's r is a quotient under a square root: r(q)^2 = r(p)^2 as a rational identity, and the covariances have the same sign
+   /\ Mul(Sq(Cov(O(q), F(q))), Mul(VarSeq(O(p)), VarSeq(F(p)))) = Mul(Sq(Cov(O(p), F(p))), Mul(VarSeq(O(q)), VarSeq(F(q))))
+   /\ Lt(Cov(O(q), F(q)), Zero) = Lt(Cov(O(p), F(p)), Zero) /\ Gt(Cov(O(q), F(q)), Zero) = Gt(Cov(O(p), F(p)), Zero)
+   /\ (VarSeq(F(q)) = Zero) = (VarSeq(F(p)) = Zero) /\ (VarSeq(O(q)) = Zero) = (VarSeq(O(p)) = Zero)
+
 Perfect(name) ==
   CASE name \in {"mae", "rmse", "stderror", "cmae", "derror", "leps", "alphaindex", "bias", "diff"} -> Zero
     [] name \in {"nsec", "nnsec", "kge", "corr", "rankcorr", "kendallcorr", "rmsf", "dmb", "mbias", "ratio"} -> One
